@@ -512,7 +512,7 @@ func (u *Unit) loadPtr(fr *Frame, st *State, p *PtrV, where string) Val {
 }
 
 // constTable: the backing array of a package-level constant table, as a cell of this unit.
-func (u *Unit) constTable(st *State, name string, cs []*ssa.Const, typ types.Type) Val {
+func (u *Unit) constTable(st *State, name string, cs []ssa.Value, typ types.Type) Val {
 	if u.tableCells == nil {
 		u.tableCells = map[string]*Cell{}
 	}
@@ -522,8 +522,14 @@ func (u *Unit) constTable(st *State, name string, cs []*ssa.Const, typ types.Typ
 		u.tableCells[name] = c
 	}
 	if _, ok := st.cells[c]; !ok {
-		for i, k := range cs {
-			u.storeCell(st, c, []string{fmt.Sprint(i)}, k.Type(), u.constVal(k))
+		for i, kv := range cs {
+			switch k := kv.(type) {
+			case *ssa.Const:
+				u.storeCell(st, c, []string{fmt.Sprint(i)}, k.Type(), u.constVal(k))
+			case *ssa.UnOp:
+				g := k.X.(*ssa.Global)
+				u.storeCell(st, c, []string{fmt.Sprint(i)}, k.Type(), &Scalar{T: u.sentinel(g.Name()), Typ: k.Type(), Origin: "global:" + g.Name()})
+			}
 		}
 	}
 	return &SliceV{Cell: c, N: len(cs), T: IntLit(int64(-200000 - c.ID)), Typ: typ}
